@@ -1,0 +1,14 @@
+//go:build verif
+
+package hdkeychain
+
+// Ghost lemma function for the deductive verifier in /verif (build tag verif, never called).
+// lemmaKeyRoundTrip: NewKeyFromString(k.String()) succeeds and returns a key with the same version,
+// depth, parent fingerprint, child number, chain code, private/public flag and key material (a private
+// scalar left-padded to 32 bytes), for every well-formed key: 4-byte version and fingerprint, 32-byte
+// chain code, and either a private scalar of at most 32 bytes in [1, n-1] or a 33-byte public key that
+// bchec accepts. String and NewKeyFromString are executed as written (inlined).
+func lemmaKeyRoundTrip(k *ExtendedKey) (*ExtendedKey, error) {
+	s := k.String()
+	return NewKeyFromString(s)
+}
